@@ -456,7 +456,7 @@ func JSONWriteLinkValue(b *[]byte, l Link) (notEmpty bool) {
 		notEmpty = JSONWriteProp(b, "href", v) || notEmpty
 	}
 	if len(l.HrefLang) > 0 {
-		notEmpty = JSONWriteStringProp(b, "hrefLang", string(l.HrefLang)) || notEmpty
+		notEmpty = JSONWriteStringProp(b, "hreflang", string(l.HrefLang)) || notEmpty
 	}
 	return notEmpty
 }
